@@ -35,6 +35,7 @@ import (
 	"sigs.k8s.io/karpenter/pkg/events"
 	"sigs.k8s.io/karpenter/pkg/operator/injection"
 	"sigs.k8s.io/karpenter/pkg/operator/options"
+	overlayv1alpha1 "sigs.k8s.io/karpenter/pkg/apis/v1alpha1"
 	"sigs.k8s.io/karpenter/pkg/test/v1alpha1"
 
 	"verif/harness/trace"
@@ -101,7 +102,7 @@ func New() *World {
 	w.Raw = k8stesting.NewObjectTracker(scheme.Scheme, codecs.UniversalDecoder())
 	b := fake.NewClientBuilder().WithScheme(scheme.Scheme).WithObjectTracker(w.Raw).
 		WithStatusSubresource(&v1.NodeClaim{}, &v1.NodePool{}, &v1alpha1.TestNodeClass{}, &corev1.Node{}, &corev1.Pod{},
-			&policyv1.PodDisruptionBudget{}).
+			&policyv1.PodDisruptionBudget{}, &overlayv1alpha1.NodeOverlay{}).
 		WithIndex(&corev1.Pod{}, "spec.nodeName", func(o client.Object) []string { return []string{o.(*corev1.Pod).Spec.NodeName} }).
 		WithIndex(&corev1.Node{}, "spec.providerID", func(o client.Object) []string { return []string{o.(*corev1.Node).Spec.ProviderID} }).
 		WithIndex(&storagev1.VolumeAttachment{}, "spec.nodeName", func(o client.Object) []string {
